@@ -16,7 +16,7 @@ Theorem C13_source_dimension_tables_inverse :
   forallb (fun p => dimension_eqb (num_to_dim (snd p)) (fst p)) dim_enc_table = true
   /\ forallb (fun p => dim_to_num (snd p) =? fst p) dim_dec_table = true
   /\ forallb (fun d => existsb (fun p => dimension_eqb (fst p) d) dim_enc_table) all_dimensions = true
-  /\ map fst dim_dec_table = [1; 2; 3] /\ dim_dec_default = D2.
+  /\ map fst dim_dec_table = [1; 2; 3] /\ dim_dec_default = Dim2.
 Proof. exact source_dimension_tables_inverse. Qed.
 
 (* the wire layout of `struct ImageData` (field order and types) *)
